@@ -90,6 +90,14 @@ func (w *c14world) next(m *c14mach) (val string, stop bool) {
 			return c14F(l.F, m.a), false
 		}
 		return "", true
+	case "nested":
+		// the body makes an iterator of its own and goes through it: the inner recur belongs to the inner iterator
+		if m.a < l.N {
+			v := fmt.Sprintf("[%d, [0, 1, 2]]", m.a)
+			m.a += l.S
+			return v, false
+		}
+		return "", true
 	case "reassign":
 		// the body assigns to its own parameter and to a local; without recur the next step runs with the
 		// arguments given by new again (S == 0), with recur with those given to recur
@@ -146,7 +154,7 @@ func (l *c14lit) reads() bool { return l.kind == "outer" || l.kind == "taker" }
 
 func (l *c14lit) finite() bool {
 	switch l.kind {
-	case "counter", "recurfirst", "fib", "kwstep", "captured", "factory", "nilyield", "gapped":
+	case "counter", "recurfirst", "fib", "kwstep", "captured", "factory", "nilyield", "gapped", "nested":
 		return true
 	case "reassign":
 		return l.S > 0
@@ -156,7 +164,7 @@ func (l *c14lit) finite() bool {
 
 func c14genLit(rng *rand.Rand, idx int, allowCaptured bool) *c14lit {
 	l := &c14lit{name: fmt.Sprintf("g%d", idx), N: rng.Intn(7), S: 1 + rng.Intn(3), F: []string{"i", "i*2", "[i, i]"}[rng.Intn(3)]}
-	kinds := []string{"counter", "counter", "fib", "kwstep", "infinite", "twoyields", "recurfirst", "const", "factory", "factory", "nilyield", "gapped", "reassign"}
+	kinds := []string{"counter", "counter", "fib", "kwstep", "infinite", "twoyields", "recurfirst", "const", "factory", "factory", "nilyield", "gapped", "reassign", "nested"}
 	if allowCaptured {
 		kinds = append(kinds, "captured")
 	}
@@ -195,6 +203,8 @@ func c14genLit(rng *rand.Rand, idx int, allowCaptured bool) *c14lit {
 		l.src = fmt.Sprintf("<{|i| recur(i + %d); yield %s if i < %d}>", l.S, fe, l.N)
 	case "const":
 		l.src = fmt.Sprintf("<{|i| yield %s if i < %d}>", fe, l.N)
+	case "nested":
+		l.src = fmt.Sprintf("<{|i| inner := <{|j| yield j if j < 3; recur(j + 1)}>.new(0); yield [i, %s] if i < %d; recur(i + %d)}>", []string{"inner.A", "[inner.next, inner.next, inner.next]", "inner@{|x| x}"}[rng.Intn(3)], l.N, l.S)
 	case "reassign":
 		if rng.Intn(2) == 0 {
 			l.S = 0
